@@ -203,13 +203,45 @@ def traces(ctx, which, only, tag):
 
 
 def validate(ctx, path, rows):
-    r = ctx.tlc("TraceProtection", "TraceProtection.cfg", workers=1, extra_files=[(path, "trace.ndjson")], timeout=600, heap="3g")
-    if not r["vectors"]:
-        raise vlib.Inconclusive("TraceProtection produced no verdict")
-    verdict = r["vectors"][-1]
-    if verdict["n"] != len(rows):
-        raise vlib.Inconclusive("TraceProtection consumed %s of %d lines" % (verdict["n"], len(rows)))
-    return sorted(verdict["bad"])
+    """Validate a trace file with TraceProtection.tla; returns the (1-based)
+    numbers of the rejected lines (the first one of each history).  Large
+    files are cut at history boundaries and the parts validated concurrently."""
+    parts, start = [], 0
+    for i in range(1, len(rows) + 1):
+        if i == len(rows) or (rows[i]["k"] == "reset" and i - start >= 25000):
+            parts.append((start, i))
+            start = i
+    lines = open(path).read().splitlines()
+    lines = [ln for ln in lines if ln.strip()]
+    if len(lines) != len(rows):
+        raise vlib.Inconclusive("trace file %s: %d lines, %d records" % (path, len(lines), len(rows)))
+    res, errs = {}, []
+
+    def one(pi, a, b, slot):
+        try:
+            pp = "%s.part%d" % (path, pi)
+            with open(pp, "w") as fh:
+                fh.write("\n".join(lines[a:b]) + "\n")
+            # One cfg name per concurrent run: vlib derives the scratch directory from it.
+            r = ctx.tlc("TraceProtection", "TraceProtection.s%d.cfg" % slot, workers=1, extra_files=[(pp, "trace.ndjson")], timeout=900, heap="2g")
+            if not r["vectors"]:
+                raise vlib.Inconclusive("TraceProtection produced no verdict")
+            verdict = r["vectors"][-1]
+            if verdict["n"] != b - a:
+                raise vlib.Inconclusive("TraceProtection consumed %s of %d lines" % (verdict["n"], b - a))
+            res[pi] = [a + i for i in verdict["bad"]]
+        except Exception as e:        # noqa: BLE001
+            errs.append(e)
+
+    for k in range(0, len(parts), 4):
+        ths = [threading.Thread(target=one, args=(k + j, a, b, j)) for j, (a, b) in enumerate(parts[k:k + 4])]
+        for t in ths:
+            t.start()
+        for t in ths:
+            t.join()
+    if errs:
+        raise errs[0]
+    return sorted(i for v in res.values() for i in v)
 
 
 def first_bad(rows, bad):
